@@ -224,7 +224,7 @@ def eval_geometry1(prog, ctx, fg1, psi_decreasing, bp_negative, env=None):
     data-dependent tests; raises PathRaises when that combination ends in `raise`."""
     set_prog(prog)
     seeds = {
-        "psi_vals[0] > self.psi_vals[-1]": psi_decreasing,
+        "self.psi_vals[0] > self.psi_vals[-1]": psi_decreasing,
         "Bp_dot_grady < 0": bp_negative,
         "hasattr": True,
     }
